@@ -29,5 +29,23 @@ def headIn (s t : Str) : Bool :=
   | c :: _ => t.contains c
 /-- a generator that yields `r` and then behaves like `k`: `list(...)` is `r :: rest`, or the first error -/
 def ycons (r : Rec) (k : Except Err (List Rec)) : Except Err (List Rec) := k.map (r :: ·)
+/-- `list(map(int, l))`: the values, or the first `ValueError` (`int` = the model's `pyInt`) -/
+def mapInt : List Str → Except Err (List Int)
+  | [] => .ok []
+  | t :: ts =>
+    match pyInt t with
+    | .error e => .error e
+    | .ok v => (mapInt ts).map (v :: ·)
+/-- `l[0]` of a list of strings (`IndexError` on the empty list is not modelled: `""`) -/
+def headD (l : List Str) : Str := (l.head?).getD []
+/-- `l[-2:]` -/
+def lastTwo {α} (l : List α) : List α := l.drop (l.length - 2)
+/-- `s.lower()` on ASCII -/
+def lower (s : Str) : Str := s.map (fun c => if 65 ≤ c.toNat ∧ c.toNat ≤ 90 then Char.ofNat (c.toNat + 32) else c)
+/-- `re.compile(r"^\.").sub("", s)`: one leading period is removed -/
+def woutPeriod (s : Str) : Str :=
+  match s with
+  | '.' :: r => r
+  | r => r
 
 end CogentModel.PyStr
